@@ -101,6 +101,16 @@ mod version;
 #[cfg(test)]
 mod tests;
 
+#[cfg(feature = "verif-hooks")]
+#[doc(hidden)]
+pub mod verif_hooks;
+
+#[cfg(all(feature = "verif-hooks", not(target_arch = "wasm32")))]
+#[doc(hidden)]
+#[allow(missing_docs)]
+#[path = "wasm.rs"]
+pub mod wasm_host;
+
 #[cfg(target_arch = "wasm32")]
 mod wasm;
 
